@@ -24,7 +24,8 @@ from props import _c01ext as X
 
 ID = "C01"
 PROP_MODULES = ["GPVerif.Props.C01"]
-BUILD_TARGETS = ["GPVerif.Props.C01", "GPVerif.Gen.ExactAlgebra", "GPVerif.Model.ExactGP", "GPVerif.Model.Proto"]
+BUILD_TARGETS = ["GPVerif.Props.C01", "GPVerif.Gen.ExactAlgebra", "GPVerif.Gen.ExactCall", "GPVerif.Model.ExactGP",
+                 "GPVerif.Model.ExactCall", "GPVerif.Model.Proto"]
 RULE = ("random ExactGP models cycling through 15 kernel families x 3 means x 3 single-task likelihoods x 4 batch "
         "patterns (+ Kronecker multitask models, kernel rank 0..t, likelihood rank 0..t), random float64 "
         "hyperparameters/data (n<=12, n*<=6, n*!=n, d<=3), each evaluated under settings cells of the grid "
@@ -46,9 +47,11 @@ ASSUMPTIONS = ["solve / cholesky / root_inv_decomposition of linear_operator sat
 EXHAUSTIVE = False
 
 EPS = 2.0 ** -52
+_CS = {"mt": {}, "det": None}      # generated call-structure facts of this run (filled by correspondence)
 
 
 GEN = os.path.join(C.LEAN_DIR, "GPVerif", "Gen", "ExactAlgebra.lean")
+GEN_CALL = os.path.join(C.LEAN_DIR, "GPVerif", "Gen", "ExactCall.lean")
 
 
 def generate(ctx):
@@ -64,9 +67,13 @@ def generate(ctx):
     ctx.notes["gen_call_facts"] = r["facts"]
     if r["casts"]:
         ctx.notes["gen_shape_mismatches"] = r["casts"]
-    ok, log = C.lake_build(["GPVerif.Gen.ExactAlgebra"])
+    from translate import g7_exact_call as g7c
+    r2 = g7c.generate(C.REPO, GEN_CALL)
+    ctx.notes["gen_call_changed"] = r2["changed"]
+    ctx.notes["gen_call_detach"] = r2["detach"]
+    ok, log = C.lake_build(["GPVerif.Gen.ExactAlgebra", "GPVerif.Gen.ExactCall"])
     if not ok:
-        raise RuntimeError("generated GPVerif/Gen/ExactAlgebra.lean does not type-check:\n" + log[-1500:])
+        raise RuntimeError("generated GPVerif/Gen/ExactAlgebra.lean / ExactCall.lean does not type-check:\n" + log[-1500:])
 
 
 # ------------------------------------------------------------------ helpers
@@ -323,6 +330,8 @@ def run_cell(model, lik, desc, test_x, test_noise, cell, P, skip_noisy=False, re
         mean_f = mean.reshape(*mean.shape[:mean.dim() - (2 if t > 1 else 1)], Sx)
         var_f = var.reshape(*var.shape[:var.dim() - (2 if t > 1 else 1)], Sx)
         obs["mean"] = bexp(mean_f, 1)
+        if t > 1:
+            obs["mean2d"] = bexp(mean, 2)           # (point, task) table as returned
         obs["cov"] = bexp(cov, 2)
         obs["var"] = bexp(var_f, 1)
         if not skip_noisy:
@@ -359,12 +368,15 @@ def run_cell(model, lik, desc, test_x, test_noise, cell, P, skip_noisy=False, re
             obs["mean_cache"] = None if mc is None else bexp(mc.reshape(*mc.shape[:-1], N) if mc.shape[-1] == N else mc, 1)
         except RuntimeError:
             obs["mean_cache"] = None
+        if mc is not None:
+            obs["mc_grad"] = bool(mc.requires_grad)
         if cell["fast"] and not cell["skip"] and default_strategy:
             cc = ps.covar_cache
             try:
                 obs["covar_cache"] = bexp(cc, 2)
             except RuntimeError:
                 obs["covar_cache"] = None
+            obs["cc_grad"] = bool(cc.requires_grad)
         if want_solve:
             # the last finished solve with an (N x S) right-hand side is the one exact_predictive_covar consumed
             obs["cg_solve"] = None
@@ -520,6 +532,10 @@ def scenario_runs(ctx, kind, idx, kw, sc, thorough=False):
         if sc.get("cell2"):
             judge("fantasy@other-cell", fm, d1, sc["cell2"])
         try:
+            if type(fm.prediction_strategy).__name__ != "DefaultPredictionStrategy":
+                # evaluated under a lazy cell the fantasy model of a KISS-GP / RFF kernel rebuilt its strategy as the
+                # kernel-specific one; fantasies through those (WISKI) are C04's / C09's subject
+                raise X.Rejected("kernel-specific strategy " + type(fm.prediction_strategy).__name__)
             fm2, d2 = X.fantasy_model(rng, fm, d1, test_x, cell, 2)
         except Exception as e:
             ctx.count("rejected_fantasy2:" + type(e).__name__)
@@ -533,6 +549,215 @@ def scenario_runs(ctx, kind, idx, kw, sc, thorough=False):
             judge("fantasy|source-afterwards", model, desc, cell)
     else:
         raise ValueError(typ)
+    return out
+
+
+# ------------------------------------------------------------------ call structure: Gen/ExactCall.lean vs the real ExactGP.__call__
+
+MODE_BITS = {"training": 1, "hasInputs": 2, "hasTargets": 4, "debug": 8, "priorMode": 16, "inputsEqual": 32, "outputIsMVN": 64}
+MODE_NAMES = ("raiseNoTrainInputs", "raiseMustTrainOnTrainInputs", "raiseNotMVN", "priorAtInputs", "priorAtArgs",
+              "posterior", "posterior+GPInputWarning")
+
+
+def observe_mode(flags, one_d):
+    """Run the real ExactGP.__call__ under one flag combination; returns (observed outcome code, detail)."""
+    import torch
+    import gpytorch
+    from gpytorch.utils.warnings import GPInputWarning
+    n, s = 5, 3
+    tx = torch.linspace(-1.0, 1.0, n, dtype=torch.float64)
+    ty = torch.sin(2 * tx)
+    xs = torch.linspace(-0.8, 0.9, s, dtype=torch.float64)
+    if not one_d:
+        tx, xs = tx.unsqueeze(-1), xs.unsqueeze(-1)
+    model, lik = X.recording_gp(tx if flags["hasInputs"] else None, ty if flags["hasInputs"] else None,
+                                nonmvn=not flags["outputIsMVN"])
+    if flags["hasInputs"] and not flags["hasTargets"]:
+        model.train_targets = None
+    arg = (model.train_inputs[0] if not one_d else tx) if (flags["inputsEqual"] and flags["hasInputs"]) else xs
+    model.train(flags["training"])
+    lik.train(flags["training"])
+    with warnings.catch_warnings(record=True) as rec, gpytorch.settings.debug(flags["debug"]), \
+            gpytorch.settings.prior_mode(flags["priorMode"]):
+        warnings.simplefilter("always")
+        try:
+            out = model(arg)
+        except RuntimeError as e:
+            msg = str(e)
+            for code, key in enumerate(("train_inputs cannot be None in training mode", "You must train on the training inputs",
+                                        "must return a MultivariateNormal")):
+                if key in msg:
+                    return code, msg[:80]
+            return -1, "RuntimeError: " + msg[:120]
+        except Exception as e:
+            return -1, f"{type(e).__name__}: {str(e)[:120]}"
+        warned = any(issubclass(w.category, GPInputWarning) for w in rec)
+    seen = list(model.seen)
+    if len(seen) == 1:
+        # one call of the prior: on which tensor?  For a 1-d argument `inputs` is the unsqueezed tensor (code 3) and
+        # `args` the argument itself (code 4); for a 2-d argument they are the same object (code 34 = either)
+        got = seen[0]
+        code = (4 if got.dim() == 1 else 3) if one_d else 34
+        if flags["outputIsMVN"]:
+            ref = model.forward(got)
+            err = max(float((out.mean - ref.mean).detach().abs().max()),
+                      float((out.covariance_matrix - ref.covariance_matrix).detach().abs().max()))
+            if err > 1e-12 or got.shape[0] != arg.shape[0]:
+                return -1, f"returned distribution differs from the prior at the call inputs by {err:.2e}"
+        return code, f"prior on a tensor of shape {tuple(got.shape)}"
+    if len(seen) == 2 and seen[0].shape[-2] == n and seen[1].shape[-2] == n + arg.shape[0]:
+        return (6 if warned else 5), "posterior (prior on the train inputs, then on [train; test])"
+    return -1, f"{len(seen)} prior calls on shapes {[tuple(t.shape) for t in seen]}"
+
+
+def call_structure(ctx):
+    """The regenerated call structure (Gen/ExactCall.lean, executed by the driver) against the real code:
+    (a) branch selection of ExactGP.__call__ for every reachable flag combination (x 1-d / 2-d arguments);
+    (b) the joint inputs `[train; test]` under batch broadcasting, read off the tensor the prior is called with;
+    (c) the multitask index maps against torch's view / reshape on arange tensors;
+    returns {"det": generated detach facts, "mt": {(n, s, t): table}} for the per-case comparisons."""
+    import torch
+    rng = ctx.rng("call-structure")
+    lines, jobs = [], []
+    # ---- (a)
+    combos = []
+    for k in range(128):
+        fl = {name: bool(k & bit) for name, bit in MODE_BITS.items()}
+        if not fl["hasInputs"] and fl["inputsEqual"]:
+            continue                                    # nothing to be equal to
+        if not fl["outputIsMVN"] and not fl["debug"] and not fl["training"]:
+            continue                                    # a non-MVN prior is only diagnosed under settings.debug
+        if not fl["hasInputs"] and fl["hasTargets"]:
+            continue                                    # ExactGP stores both or none
+        if not fl["outputIsMVN"] and not fl["training"] and not fl["priorMode"] and fl["hasInputs"] and fl["hasTargets"]:
+            continue      # posterior branch with a non-MVN prior: building the strategy fails before the diagnostic
+        combos.append((k, fl))
+    lines.append("mode " + " ".join(str(k) for k, _ in combos))
+    # ---- (b)
+    shapes = [((), ()), ((3,), ()), ((), (2,)), ((2,), (2,)), ((2, 1), (3,)), ((1, 2), (2, 1)), ((2, 1, 1), ()),
+              ((3, 1, 2), (1, 2)), ((1,), (4,)), ((2,), (3,)), ((2, 3), (2,)), ((1, 1, 2), (3, 1, 1)), ((2, 1, 2), (2, 2, 1))]
+    cats = []
+    for bt, bi in shapes:
+        n, s = rng.randint(1, 3), rng.randint(1, 3)
+        cats.append((n, s, bt, bi))
+        lines.append(" ".join(["cat", str(n), str(s), str(len(bt))] + [str(v) for v in bt] + [str(len(bi))] + [str(v) for v in bi]))
+    # ---- (c)
+    mts = [(rng.randint(1, 4), rng.randint(1, 4), t) for t in (0, 1, 2, 3, 4)] + [(1, 1, 2), (3, 2, 2)]
+    for n, s, t in mts:
+        lines.append(f"mt {n} {s} {t}")
+    lines.append("det")
+    rep = dict(zip(lines, C.run_driver("C01", lines)))
+
+    def nat(txt):
+        return [int(v) for v in txt.split()]
+    # (a)
+    r = rep[lines[0]]
+    if not r.startswith("ok "):
+        ctx.broke("correspondence", "driver: mode request", r[:200])
+    else:
+        codes = nat(r[3:])
+        for j, (k, fl) in enumerate(combos):
+            gen, spec = codes[2 * j], codes[2 * j + 1]
+            for one_d in (False, True):
+                obs, detail = observe_mode(fl, one_d)
+                ctx.case(f"call-mode|{k}|{'1d' if one_d else '2d'}", nontrivial=True)
+                ctx.count("comparisons")
+                ctx.count("call-structure:mode")
+                want = gen
+                if obs == 34 and want in (3, 4):
+                    obs = want        # a 2-d argument cannot tell `inputs` from `args`
+                if obs != want:
+                    on = ", ".join(n_ for n_, v in fl.items() if v) or "-"
+                    what = (f"ExactGP.__call__ with [{on}] ({'1-d' if one_d else '2-d'} argument): observed "
+                            f"{MODE_NAMES[obs] if 0 <= obs < 7 else detail}, the regenerated callMode says {MODE_NAMES[gen]} "
+                            f"(specification: {MODE_NAMES[spec]})")
+                    if spec in (5, 6) or obs in (5, 6):
+                        # eval mode + data must give the posterior (and nothing else may): the property's own claim
+                        ctx.fail(f"call-mode:{MODE_NAMES[spec]}", what, {"callmode": True, "k": k, "one_d": one_d})
+                    else:
+                        ctx.broke("correspondence", "generated callMode (Gen/ExactCall.lean) vs implementation", what)
+                elif (spec in (5, 6)) != (obs in (5, 6)):
+                    # the code and its translation agree, but not with the documented behaviour, and the posterior
+                    # branch is involved: eval mode + data (and nothing else) must give the posterior
+                    on = ", ".join(n_ for n_, v in fl.items() if v) or "-"
+                    ctx.fail(f"call-mode:{MODE_NAMES[spec]}",
+                             f"ExactGP.__call__ with [{on}]: observed {MODE_NAMES[obs] if 0 <= obs < 7 else detail}, "
+                             f"documented {MODE_NAMES[spec]}", {"callmode": True, "k": k, "one_d": one_d})
+    # (b)
+    for (n, s, bt, bi), line in zip(cats, lines[1:1 + len(cats)]):
+        ctx.case(f"call-cat|{n}|{s}|{bt}|{bi}", nontrivial=True)
+        ctx.count("comparisons")
+        ctx.count("call-structure:cat")
+        ntr = n
+        for v in bt:
+            ntr *= v
+        tx = torch.arange(ntr, dtype=torch.float64).reshape(*bt, n, 1)
+        nte = s
+        for v in bi:
+            nte *= v
+        xs = (ntr + torch.arange(nte, dtype=torch.float64)).reshape(*bi, s, 1)
+        model, lik = X.recording_gp(tx, torch.zeros(*bt, n, dtype=torch.float64))
+        model.eval()
+        lik.eval()
+        try:
+            with warnings.catch_warnings():
+                warnings.simplefilter("ignore")
+                model(xs)
+            full = model.seen[-1]
+            real = [int(v) for v in full.squeeze(-1).reshape(-1).tolist()]
+            real_shape = list(full.shape[:-1])
+        except RuntimeError as e:
+            real, real_shape = None, str(e)[:100]
+        r = rep[line]
+        where = f"train batch {bt} n={n}, test batch {bi} s={s}"
+        if r.startswith("ok "):
+            def tens(txt):
+                v = nat(txt)
+                return v[1:1 + v[0]], v[2 + v[0]:]
+            (gshape, gen), (shape, spec) = [tens(part) for part in r[3:].split(" | ")]
+            if real is None:
+                ctx.fail("call-concat:raises", f"ExactGP.__call__ raised ({real_shape}) on batch shapes that broadcast: {where}",
+                         {"callcat": True, "n": n, "s": s, "bt": bt, "bi": bi})
+            elif real != spec or real_shape != shape:
+                ctx.fail("call-concat:joint-inputs",
+                         f"the joint inputs handed to the prior are not [train; test] of the broadcast batch: shape "
+                         f"{real_shape} rows {real[:12]}…, specification {shape} {spec[:12]}… ({where})",
+                         {"callcat": True, "n": n, "s": s, "bt": bt, "bi": bi})
+            elif real != gen or real_shape != gshape:
+                ctx.broke("correspondence", "generated catInputs (Gen/ExactCall.lean) vs implementation",
+                          f"{where}: real {real_shape} {real[:16]} generated {gshape} {gen[:16]}")
+        elif r == "none none":
+            if real is not None:
+                ctx.broke("correspondence", "generated catInputs vs implementation",
+                          f"{where}: the real code accepted shapes that do not broadcast: {real_shape}")
+        else:
+            ctx.broke("correspondence", "generated catInputs vs specification concatSpec", f"{where}: driver says {r[:60]}")
+    # (c)
+    out = {"mt": {}, "det": None}
+    for (n, s, t), line in zip(mts, lines[1 + len(cats):]):
+        ctx.case(f"call-mt|{n}|{s}|{t}", nontrivial=True)
+        ctx.count("comparisons")
+        ctx.count("call-structure:mt")
+        r = rep[line]
+        if not r.startswith("ok "):
+            ctx.broke("correspondence", "driver: mt request", r[:200])
+            continue
+        head, tab, lab = [nat(part) for part in r[3:].split(" | ")]
+        m = max(t, 1)
+        joint = torch.arange((n + s) * m)
+        want_tab = joint[n * m:].view(*([s, t] if t else [s])).reshape(-1).tolist()
+        want_lab = torch.arange(n * m).view(*([n, t] if t else [n])).reshape(n * m).tolist()
+        want_head = [n * m, 2 if t else 1] + ([s, t] if t else [s])
+        if head != want_head or tab != want_tab or lab != want_lab:
+            ctx.broke("correspondence", "generated multitask reshape (Gen/ExactCall.lean) vs torch view / reshape",
+                      f"n={n} s={s} t={t}: generated {head} {tab[:8]} {lab[:8]}, torch {want_head} {want_tab[:8]} {want_lab[:8]}")
+        out["mt"][(n, s, t)] = tab
+    r = rep["det"]
+    if r.startswith("ok "):
+        bits = nat(r[3:])
+        out["det"] = {"mean_on": bool(bits[0]), "mean_off": bool(bits[1]), "covar_on": bool(bits[6]), "covar_off": bool(bits[7])}
+    else:
+        ctx.broke("correspondence", "driver: det request", r[:200])
     return out
 
 
@@ -658,6 +883,14 @@ def correspondence(ctx, extra=False):
         ctx.assumption("C12-owned defect present in this tree (FixedNoise + learn_additional_noise forwards the "
                        "call-time noise to the learned noise model): the noisy-covariance observable of C01 is "
                        "skipped for that likelihood kind with call-time noise; mean/covariance still compared")
+    try:
+        cstruct = call_structure(ctx)
+    except Exception as e:
+        import traceback
+        ctx.broke("correspondence", "call structure (Gen/ExactCall.lean) could not be checked", traceback.format_exc()[-1500:])
+        cstruct = {"mt": {}, "det": None}
+    _CS.clear()
+    _CS.update(cstruct)
     plan = _plan(ctx, n_single, n_multi, n_ext, n_nd)
     cell_cycle = G.all_cells()
     ctx.rng("scenario-cells").shuffle(cell_cycle)
@@ -774,6 +1007,13 @@ def correspondence(ctx, extra=False):
     replies = _lines_parallel("C01", post_lines, workers)
     ctx.notes["phase2_s"] = round(T(), 1)
     # ---- phase 3: observed-cache requests (assume/guarantee) and comparison
+    need = sorted({(cs["desc"]["n"], cs["desc"]["s"], cs["desc"]["tasks"]) for cs in cases if cs["desc"]["tasks"] > 1}
+                  - set(_CS["mt"]))
+    if need:
+        mt_lines = [f"mt {n_} {s_} {t_}" for n_, s_, t_ in need]
+        for key, r in zip(need, C.run_driver("C01", mt_lines)):
+            if r.startswith("ok "):
+                _CS["mt"][key] = [int(v) for v in r[3:].split(" | ")[1].split()]
     pending = []   # (line, callback)
     dist = {"n": {}, "kernel": {}, "lik": {}, "batch": {}, "mean": {}, "cell_axes": {}}
     for cs in cases:
@@ -892,6 +1132,22 @@ def _compare(ctx, cs, b, R, cell, obs, pending):
         ctx.count("unobserved:mean_cache")
         prim_mean = ("CG solve (mean_cache, unobserved)", float("nan"))
     check(f"posterior-mean:{path}", "model(x*).mean", obs["mean"][b], R.mean, R.tol_mean, prim_mean)
+    # ---- generated call structure (Gen/ExactCall.lean): the multitask reshape and what detach_test_caches detaches
+    tab = _CS["mt"].get((desc["n"], desc["s"], desc["tasks"])) if desc["tasks"] > 1 else None
+    if tab is not None and obs.get("mean2d") is not None:
+        t_ = desc["tasks"]
+        via = np.array([[R.mean[tab[p_ * t_ + q_] - N] for q_ in range(t_)] for p_ in range(desc["s"])])
+        check(f"gen:multitask-reshape:{path}", "model(x*).mean[(point, task)] vs the exact posterior mean read through the "
+              "GENERATED reshape (viewPredMean ∘ testMean)", obs["mean2d"][b], via, R.tol_mean, prim_mean, tie=True)
+    if _CS.get("det") and not hist and not cs.get("scenario"):
+        for flag, name in (("mc_grad", "mean"), ("cc_grad", "covar")):
+            if obs.get(flag) is not None:
+                ctx.count("comparisons")
+                detached = _CS["det"][name + ("_on" if cell["detach"] else "_off")]
+                if detached == obs[flag]:
+                    ctx.broke("correspondence", f"generated {name}CacheDetached (Gen/ExactCall.lean) vs implementation",
+                              f"detach_test_caches={cell['detach']}: generated says detached={detached}, the real cache has "
+                              f"requires_grad={obs[flag]} on {where}")
     # ---- the GENERATED exact_prediction under this cell's branch configuration (translator tie)
     code = cfg_code(cell, P)
     gen = None
@@ -1055,6 +1311,11 @@ def replay(ctx, payload):
     torch.set_num_threads(2)
     case = payload.get("case", payload)
     os.environ["VERIF_SEED"] = str(payload.get("seed", C.seed()))
+    if case.get("callmode") or case.get("callcat"):
+        call_structure(ctx)
+        for f in ctx.failures[:5]:
+            print("replay:", f["key"], f["what"][:300])
+        return not ctx.failures
     if case.get("tolcell"):
         tolerance_case(ctx, case["idx"], case.get("cell"))
         for f in ctx.failures[:5]:
